@@ -84,6 +84,11 @@ class Run:
                 raise CheckerError("function %s not found in %s" % (c.func, c.file))
             n0 = len(self.sink.obls)
             ex.verify(c)
+            if c.abstract_mul:
+                for ob in self.sink.obls[n0:]:
+                    if ob.status is None and ob.backend == "smt" and ob.expect == "valid":
+                        ob.meta["abstract_mul"] = True
+                        ob.meta["abstract_first"] = True
             if c.gen is not None:
                 for ob in self.sink.obls[n0:]:
                     if ob.replay is None and ob.kind in ("post", "preserve", "establish", "frame", "bounds", "call-pre"):
@@ -131,6 +136,21 @@ class Run:
             raise CheckerError("zero obligations generated")
         backends.discharge(obls, self.budget)
         # escalate unknowns once with 4x budget
+        # second attempt for unknowns: products abstracted to an uninterpreted function (sound weakening)
+        unk = [o for o in obls if o.status == "unknown" and o.kind not in ("cover", "canary") and o.backend == "smt"]
+        if unk:
+            for o in unk:
+                o.status = None
+                o.meta["abstract_mul"] = True
+            backends.discharge(unk, self.budget)
+            for o in unk:
+                if o.status != "discharged":
+                    o.meta.pop("abstract_mul", None)
+                    if o.status == "refuted":      # a model of the abstraction is not a counterexample
+                        o.status = "unknown"
+                        o.model = None
+                else:
+                    o.solver = (o.solver or "") + "+umul"
         unk = [o for o in obls if o.status == "unknown" and o.kind not in ("cover", "canary")][:8]
         if unk:
             for o in unk:
